@@ -232,8 +232,8 @@ Inv_C14 == Holds(C14)
 (***************************************************************************)
 (* C15 parsing: all strings over small alphabets (seed: the string)        *)
 (***************************************************************************)
-BinAlphabet == {"0", "1", "x"}
-HexAlphabet == {"0", "9", "a", "F", "g", "é"}
+BinAlphabet == {"0", "1", "x", "+"}
+HexAlphabet == {"0", "9", "a", "F", "g", "é", "+"}
 Strings(S, n) == UNION {[1..k -> S] : k \in 0..n}
 \* too-long-and-invalid strings are unspecified: valid strings for every class, invalid ones only where they fit
 Calls_C15(cs) ==
